@@ -29,6 +29,22 @@ SPR = [
     (r'Base::check_(full|empty)\(', r'Base_check_\1(&this->b, ', 0), (r'std::min\(', 'MIN_(', 0), (r'Base::capacity', 'this->b.capacity', 0),
     (r'(?<![\w>.:])idx\(', 'Base_idx(&this->b, ', 1), (r'&slots\[', '&this->slots[', 0), (r'(?<![\w>.])(produce|consume)\(', 'CB_(', 0),
 ]
+CHR = [(r'\bT x;', 'uint64_t x;', 1), (r'(?:queue->)?(?<![\w.])pop\(x\)', 'CH_pop(this, &x)', 1),
+       (r'SendBackoff<T>::notify_senders\([^;]*\);', 'notify_senders_(this);', 1), (r'photon::thread_yield\(\);', 'thread_yield_();', 1),
+       (r'(idler|pending)\.fetch_add\((\w+), [^)]*\)', r'at_fetch_add(this, &this->\1, \2)', 1), (r'(idler|pending)\.fetch_sub\((\w+), [^)]*\)', r'at_fetch_sub(this, &this->\1, \2)', 1),
+       (r'Timeout yield_timeout\(([^)]*)\);', r'struct Timeout yield_timeout; Timeout_ctor_(&yield_timeout, \1);', 1),
+       (r'yield_timeout\.expired\(\)', 'Timeout_expired_(&yield_timeout)', 1), (r'yield_timeout\.timeout\(([^)]*)\)', r'Timeout_timeout_(&yield_timeout, \1)', 1),
+       (r'queue_sem\.wait\(1, [^)]*\)', 'sem_wait_(this)', 1)]
+CH_RM = {'count': 1, 0: dict(name='RC', frame=['this', 'x', 'yield_turn', 'yield_timeout', 'r', 'POPPED', 'POP_FAILED_SINCE', 'TOKEN_UNMIRRORED', 'N_WAIT', 'N_PEND_DEC', 'N_YIELD'],
+         effects={'CH_pop': ['this', 'x', 'POPPED', 'POP_FAILED_SINCE'], 'thread_yield_': ['N_YIELD'], 'sem_wait_': ['this', 'POP_FAILED_SINCE', 'TOKEN_UNMIRRORED', 'N_WAIT'],
+                  'at_fetch_sub': ['this', 'TOKEN_UNMIRRORED', 'N_PEND_DEC'], 'Timeout_timeout_': ['yield_timeout'], 'at_fetch_add': ['this', 'POP_FAILED_SINCE']}, pure=['Timeout_expired_'])}
+CHS = [(r'SendBackoff<T>::template push_backoff<Pause>\(.*?send_sem, send_waiters, send_pending\);', 'push_backoff_(this, x);', 1),
+       (r'std::atomic_thread_fence\(std::memory_order_seq_cst\);', 'fence_();', 1),
+       (r'(idler|pending)\.load\([^)]*\)', r'sd_load(this, &this->\1)', 1),
+       (r'pending\.compare_exchange_weak\((\w+), ([^,]+),\s*std::memory_order_acq_rel,\s*std::memory_order_acquire\)', r'sd_cas(this, &this->pending, &\1, \2)', 1),
+       (r'queue_sem\.signal\(1\);', 'sem_signal_(this, 1);', 1)]
+CH_SM = {'count': 1, 0: dict(name='SD', frame=['this', 'p', 'cur_idler', 'fresh', 'IDLER_SEEN', 'PEND_SEEN', 'SAW_IDLER', 'SAW_PEND', 'N_CAS_OK', 'CAS_FROM', 'N_SIGNAL'],
+         effects={'sd_load': ['this', 'IDLER_SEEN', 'PEND_SEEN', 'SAW_IDLER', 'SAW_PEND'], 'sd_cas': ['this', 'p', 'PEND_SEEN', 'N_CAS_OK', 'CAS_FROM'], 'sem_signal_': ['N_SIGNAL']}, pure=[])}
 PURE = ['Base_idx', 'Base_turn', 'Q_last_turn_read', 'Q_this_turn_write', 'Q_this_turn_read', 'Base_check_full', 'Base_check_empty', 'Base_check_mask_equal']
 TARGETS = [
     Target('base_ctor', Q, r'explicit LockfreeRingQueueBase\(size_t c\)\s*(?=:)', init_list=True, rules=[
@@ -71,8 +87,12 @@ TARGETS = [
     Target('spsc_produce', Q, r'size_t produce_push_batch\(size_t n, Producer&& produce\)', rules=SPR),
     Target('spsc_produce_fully', Q, r'size_t produce_push_batch_fully\(size_t n, Producer&& produce\)', rules=SPR),
     Target('spsc_consume', Q, r'size_t consume_pop_batch\(size_t n, Consumer&& consume\)', rules=SPR),
+    Target('ch_recv', Q, r'T recv\(uint64_t max_yield_turn, uint64_t max_yield_usec\)', index=0, count=2, rules=CHR, defers=dict(rettype='uint64_t'), marks=CH_RM),
+    Target('fch_recv', Q, r'T recv\(uint64_t max_yield_turn, uint64_t max_yield_usec\)', index=1, count=2, rules=CHR, defers=dict(rettype='uint64_t'), marks=CH_RM),
+    Target('ch_send', Q, r'void send\(const T& x\) (?=\{\s*SendBackoff<T>::template push_backoff)', index=0, count=2, rules=CHS, marks=CH_SM),
+    Target('fch_send', Q, r'void send\(const T& x\) (?=\{\s*SendBackoff<T>::template push_backoff)', index=1, count=2, rules=CHS, marks=CH_SM),
 ]
-UNITS = {'ring.c': 'ring.c.in', 'batch.c': 'batch.c.in', 'spsc.c': 'spsc.c.in'}
+UNITS = {'ring.c': 'ring.c.in', 'batch.c': 'batch.c.in', 'spsc.c': 'spsc.c.in', 'chan.c': 'chan.c.in'}
 PROOFS = [
     Proof('arith', 'ring.c', 'lemma_ring_arith', kind='L', min_obligations=6),
     Proof('mpmc/push', 'ring.c', 'h_mpmc_push', kind='L', min_obligations=4, backend='cadical'),
@@ -82,6 +102,10 @@ PROOFS = [
     Proof('spsc/pop', 'spsc.c', 'h_spsc_pop', kind='L', min_obligations=4),
     Proof('spsc/push_batch', 'spsc.c', 'h_spsc_produce', kind='L', min_obligations=4, backend='cadical'),
     Proof('spsc/pop_batch', 'spsc.c', 'h_spsc_consume', kind='L', min_obligations=4, backend='cadical'),
+    Proof('channel/recv', 'chan.c', 'h_ch_recv', kind='L', min_obligations=5),
+    Proof('channel/send', 'chan.c', 'h_ch_send', kind='L', min_obligations=5),
+    Proof('flexchannel/recv', 'chan.c', 'h_ch_recv', kind='L', defines=['FLEX'], min_obligations=5),
+    Proof('flexchannel/send', 'chan.c', 'h_ch_send', kind='L', defines=['FLEX'], min_obligations=5),
     Proof('mpmc/pop', 'ring.c', 'h_mpmc_pop', kind='L', min_obligations=4, backend='cadical'),
 ]
 NATIVES = []
